@@ -20,6 +20,8 @@ Driver for C08.  `T` is `u` (std::size_t instantiation, components ≥ 0) or `s`
 * `apply d1 k1 d2 k2 [d3 k3]` apply (a, bs ↦ fold (acc*1009 + b))
 * `fill d v k`                mkc d v, then fill with enc k
 * `out d k`                   operator<< of the grid
+* `interp d k fl q`           interpolate at the position fl + q/4 (0 ≤ fl_i, fl_i + 1 < d_i, q_i ∈ 0..3), interpolator
+                              `ip f a b = (4f+1)*1000003 + 7a + 13b`; `interps d k`: digest over all such fl, q
 * `rows w h k`                static_row constructor (N = 2), 1 ≤ w, h ≤ 4
 * `regs d0 k0 d1 k1 d2 k2 P`  three objects, `P` = special-member calls `xxDS` joined by `.` (`-` = none): `cc` copy ctor,
                               `mc` move ctor, `ca` copy assign, `ma` move assign, `sm` member swap, `sf` free swap; D, S slot digits
@@ -132,6 +134,14 @@ def regsLine (dks : List (List Int × Int)) (prog : List RegOp) : String :=
 def cmpLine (a b : Grid Int) : String :=
   exc (a.eq b) fun e => exc (a.ne b) fun n =>
     s!"eq={b01 e} ne={b01 n} lt={b01 (a.lt b)} gt={b01 (a.gt b)} le={b01 (a.le b)} ge={b01 (a.ge b)}"
+
+def interpIp (q a b : Int) : Int := (q + 1) * 1000003 + 7 * a + 13 * b
+
+def interpLine (g : Grid Int) (fl q : List Int) : String :=
+  exc (g.interpolate fl q interpIp) fun r => s!"ip={r}"
+
+def interpOk (d fl q : List Int) : Bool :=
+  (List.zip d (List.zip fl q)).all fun x => 0 ≤ x.2.1 && x.2.1 + 1 < x.1 && 0 ≤ x.2.2 && x.2.2 ≤ 3
 
 def applyF (a : Int) (bs : List Int) : Int := bs.foldl (fun acc b => acc * 1009 + b) a
 
@@ -255,6 +265,20 @@ def handle (toks : List String) : String :=
     match L d, I k with
     | some d, some k =>
       if okDims [d] && nonneg d then exc (mkGrid d k) fun g => exc (g.output toString) fun o => s!"out={o}" else "bad-op"
+    | _, _ => "bad-op"
+  | ["interp", d, k, fl, q] =>
+    match L d, I k, L fl, L q with
+    | some d, some k, some fl, some q =>
+      if okDims [d, fl, q] && nonneg d && interpOk d fl q then exc (mkGrid d k) fun g => interpLine g fl q else "bad-op"
+    | _, _, _, _ => "bad-op"
+  | ["interps", d, k] =>
+    match L d, I k with
+    | some d, some k =>
+      if okDims [d] && d.all (2 ≤ ·) then
+        exc (mkGrid d k) fun g =>
+          digest ((tuples (zeros d) (d.map (· - 1))).flatMap fun fl =>
+            (tuples (zeros d) (d.map fun _ => 4)).map fun q => interpLine g fl q)
+      else "bad-op"
     | _, _ => "bad-op"
   | ["rows", w, h, k] =>
     match String.toNat? w, String.toNat? h, I k with
